@@ -10,7 +10,7 @@ import tlc
 LEVEL = "model_checking"
 
 PAR = int(os.environ.get("VERIF_PAR", "16") or 16)
-HYP = {"quick": 480, "thorough": 6400}       # Hypothesis documents per run (spread over the shards)
+HYP = {"quick": 480, "thorough": 3200}       # Hypothesis documents per run (spread over the shards)
 
 
 # ---- pipeline --------------------------------------------------------------------------------------
@@ -200,7 +200,15 @@ def _raised(v, where, excs, below):
 
 
 def _bad_time(x):
-  return x is not None and (not isinstance(x, (int, float)) or (isinstance(x, float) and not math.isfinite(x)))
+  """x / 1000 is no finite number: text, list, object, inf, nan, an integer beyond the floats"""
+  if x is None:
+    return False
+  if not isinstance(x, (int, float)):
+    return True
+  try:
+    return not math.isfinite(float(x))
+  except OverflowError:
+    return True
 
 
 def m45_time_not_a_number(v):
